@@ -12,7 +12,7 @@ def run(chk, ctx):
                        "procedure written over the proved arithmetic kernels; plus the clause oracles (quota, transfer values, lowest/sure-loser, ties) on the "
                        "implementation and wigm(fixed,4) vs wigm-prf history equality")
     cases, res = cc.run(chk, ctx, 'full', ORACLES, 1500, 150000, rules=cd.STATUTORY + ['wigm'], tweak=tweak,
-                        families=['small', 'tie', 'nearquota', 'chain', 'starved', 'withdrawn', 'bigmult', 'mid', 'exactquota', 'exactquota', 'coalition', 'cross'])
+                        families=['small', 'tie', 'nearquota', 'chain', 'starved', 'withdrawn', 'bigmult', 'hugemult', 'mid', 'exactquota', 'exactquota', 'coalition', 'cross'])
     # the parametric WIGM rule configured with the reference rule's parameters yields the reference rule's history
     rng = rng_for(chk.seed, 'c03-prf')
     n = 200 if ctx['tier'] == 'quick' else 20000
